@@ -1,15 +1,58 @@
-(* C07 - strict and recovering parsers: proved half.  For every grammar table set, start rule and token
-   list: if the strict parser accepts, the recovering parser returns the identical tree.
-   Not yet proved (C07_partial): that this tree has no error node/leaf (it cannot: error nodes and error
-   leaves are built only in the recovery branch), the converse, and the agreement on the first error
-   token - these are decided by the parse correspondence in both modes and the first_error_agrees search. *)
+(* C07 - strict and recovering parsers agree on what is a syntax error.  Only statements.
+   For every grammar table set, start rule and token list (Engine model, both modes share add_token):
+     - if the strict parser accepts, the recovering parser takes the same steps and returns the identical tree,
+       and that tree contains no error node / error leaf;
+     - if the strict parser raises its syntax error, every tree the recovering parser returns contains an error
+       node or an error leaf (markers are created exactly in the recovery branch and never lost afterwards).
+   Not proved (C07_partial): that the token reported by the strict parser is the first error the recovering parser
+   marks - decided by the parse correspondence in both modes and the first_error_agrees search. *)
 From Coq Require Import List NArith.
-Require Import Regex Tok Engine EngineSim.
+Import ListNotations.
+Require Import Regex Tok Engine EngineSim EngineErr Tables Grammars Model.
+Open Scope N_scope.
+
 Theorem C07_strict_accepts_recover_same : forall G TR start toks t,
   parse G TR false start toks = POk t -> parse G TR true start toks = POk t.
 Proof. exact strict_accepts_recover_same. Qed.
 Print Assumptions C07_strict_accepts_recover_same.
+
 Theorem C07_step_simulation : forall G TR f p t p',
   add_token G TR f false p t = POk p' ->
   forall om ic, add_token G TR f true (mkP (stack p) om ic) t = POk (mkP (stack p') om ic).
 Proof. exact add_token_sim. Qed.
+
+Theorem C07_strict_tree_has_no_error : forall G TR start toks t,
+  parse G TR false start toks = POk t -> no_error t = true.
+Proof. exact strict_no_error. Qed.
+Print Assumptions C07_strict_tree_has_no_error.
+
+Theorem C07_syntax_error_is_marked : forall G TR start toks x t,
+  parse G TR false start toks = PErr (SyntaxErr x) -> parse G TR true start toks = POk t -> no_error t = false.
+Proof. exact syntax_error_marked. Qed.
+Print Assumptions C07_syntax_error_is_marked.
+
+(* on the pipeline model, for every version, start rule and text *)
+Theorem C07_agree : forall v start s t, parse_text v Recover start s = OTree t ->
+  (forall t', parse_text v Strict start s = OTree t' -> t' = t /\ no_error t = true) /\
+  (forall x, parse_text v Strict start s = OParseErr (SyntaxErr x) -> no_error t = false).
+Proof.
+  intros v start s t R. unfold parse_text in *. destruct (tokenize_text v s) as [toks|]; [|discriminate].
+  unfold parse_tokens in *. destruct (Engine.assocN v grams) as [[G TR]|]; [|discriminate].
+  destruct (parse G TR true _ toks) as [tr|] eqn:PR; [|discriminate]. inversion R; subst tr.
+  destruct (error_marker_iff_strict_raises G TR _ _ _ PR) as [A B]. split.
+  - intros t' S. destruct (parse G TR false _ toks) as [ts|] eqn:PS; [|discriminate]. inversion S; subst ts. apply A. reflexivity.
+  - intros x S. destruct (parse G TR false _ toks) as [ts|e] eqn:PS; [discriminate|]. inversion S; subst e. eapply B. reflexivity.
+Qed.
+Print Assumptions C07_agree.
+
+(* non-vacuity: "x = (1\n" is rejected by the strict parser and marked by the recovering one; "x = 1\n" is accepted *)
+Example C07_example_error :
+  match parse_text 310 Strict 0 [120;32;61;32;40;49;10], parse_text 310 Recover 0 [120;32;61;32;40;49;10] with
+  | OParseErr (SyntaxErr _), OTree t => no_error t = false
+  | _, _ => False end.
+Proof. vm_compute. reflexivity. Qed.
+Example C07_example_ok :
+  match parse_text 310 Strict 0 [120;32;61;32;49;10], parse_text 310 Recover 0 [120;32;61;32;49;10] with
+  | OTree t', OTree t => t' = t /\ no_error t = true
+  | _, _ => False end.
+Proof. vm_compute. split; reflexivity. Qed.
